@@ -231,7 +231,7 @@ class World:
 
 
 OPS = ['create', 'create', 'copy', 'hold', 'unpickle', 'unpickle', 'nest', 'nest', 'unnest', 'fetch', 'drop', 'drop', 'child_arg', 'child_queue', 'managed',
-       'managed_same', 'managed_same', 'agent_exit', 'shm', 'use']
+       'managed_same', 'managed_same', 'agent_exit', 'shm', 'use', 'fork_child']
 
 
 def step(w: World, i):
@@ -418,6 +418,19 @@ def step(w: World, i):
         w.obs['cross_process_transfers'] += 1
         w.obs['children'] += 1
         return f'{op}:done'
+    if op == 'fork_child':
+        # an agent forks (stdlib fork start method) a child that inherits all the agent's proxies, uses one and exits: nothing may be left behind
+        ags = [a for a in w.agents if w.handles_of(a)]
+        if not ags:
+            return None
+        a = rng.choice(ags)
+        h = rng.choice(w.handles_of(a))
+        ec = w.agent(a, ('fork-use', h))
+        if ec != 0:
+            w.viol.append({'mech': 'refcount/live-proxy-unusable/fork_child', 'msg': f'a child forked by agent {a} could not use an inherited proxy (exit code {ec})'})
+        w.obs['forked_children'] = w.obs.get('forked_children', 0) + 1
+        w.obs['children'] += 1
+        return 'fork_child:done'
     if op == 'managed':
         a = rng.choice(actors)
         boxes = w.handles_of(a, types=('box',))
@@ -578,4 +591,4 @@ def decide_inconclusive(obs, results, cases):
     return None
 
 
-RULE = RULE + '; sender drops its proxy while the argument is in transit to a new child'
+RULE = RULE + '; sender drops its proxy while the argument is in transit to a new child; an agent forks a child (stdlib fork start method) that inherits all its proxies by memory, uses one and exits'
